@@ -205,5 +205,13 @@ Ltac sgn_atoms_finish x y z Hu :=
   let az := fresh "az" in let sz := fresh "sz" in let ay := fresh "ay" in let sy := fresh "sy" in
   let ax := fresh "ax" in let sx := fresh "sx" in
   intros az sz Hz ay sy Hy ax sx Hx;
-  (let e := goal_rad in replace e with 1 by ring [Hx Hy Hz Hu]);
-  rewrite !sqrt_1; unfold qsc; val_eq; div1; ring [Hx Hy Hz Hu].
+  (let e := goal_rad in replace e with 1 by (field [Hx Hy Hz Hu]; repeat split; lra));
+  rewrite !sqrt_1; unfold qsc; val_eq; field [Hx Hy Hz Hu]; repeat split; lra.
+
+(* resolve |a| when the sign of a follows by linear arithmetic *)
+Ltac abs_lra :=
+  repeat match goal with
+  | |- context [Rabs ?a] => first [ rewrite (Rabs_right a) by lra | rewrite (Rabs_left a) by lra ]
+  end.
+(* finish a leaf whose radicals are gone except the final norm: radicand = 1, components by field *)
+Ltac norm_finish := rad_one; unfold qsc; val_eq; (field [] || field); repeat split; lra.
